@@ -46,8 +46,8 @@ def HeapNP (h : CHeap) : Prop := AllCells lamQ h
 def ContBound (n : Nat) (h : CHeap) : Prop := AllCells (contQ n) h
 def ContFits (s : St CHeap) : Prop := ContBound s.stack.cells.length s.heap
 
-theorem lamQ_free : QFree lamQ := ⟨fun _ _ h => by cases h, fun _ _ h => by cases h⟩
-theorem contQ_free (n : Nat) : QFree (contQ n) := ⟨fun _ _ h => by cases h, fun _ _ h => by cases h⟩
+theorem lamQ_free : QFree lamQ := ⟨fun _ _ h => (by cases h), fun _ _ h => (by cases h)⟩
+theorem contQ_free (n : Nat) : QFree (contQ n) := ⟨fun _ _ h => (by cases h), fun _ _ h => (by cases h)⟩
 
 theorem ContBound.mono {n m : Nat} {h : CHeap} (c : ContBound n h) (le : n ≤ m) : ContBound m h :=
   fun i cc hc k hk => Nat.le_trans (c i cc hc k hk) le
@@ -306,24 +306,24 @@ theorem lamNPB_sound {l : CLambda} (hb : lamNPB l = true) : LamNP l := by
 
 theorem heapNPB_sound {h : CHeap} (hb : heapNPB h = true) : HeapNP h := by
   intro i c hc l hl
-  subst hl
   unfold heapNPB at hb
   rw [Array.all_eq_true] at hb
   have hlt : i < h.cells.size := lt_of_get_some hc
   have := hb i hlt
   rw [Array.getElem?_eq_getElem hlt] at hc
   cases hc
+  rw [hl] at this
   exact lamNPB_sound this
 
 theorem contBoundB_sound {n : Nat} {h : CHeap} (hb : contBoundB n h = true) : ContBound n h := by
   intro i c hc k hk
-  subst hk
   unfold contBoundB at hb
   rw [Array.all_eq_true] at hb
   have hlt : i < h.cells.size := lt_of_get_some hc
   have := hb i hlt
   rw [Array.getElem?_eq_getElem hlt] at hc
   cases hc
+  rw [hk] at this
   simpa using this
 
 theorem npinv_of_check {s : St CHeap} (h1 : heapNPB s.heap = true) (h2 : contFitsB s = true) : NPInv s :=
